@@ -12,6 +12,7 @@ import (
 
 	"github.com/invopop/gobl"
 	"github.com/invopop/gobl/dsig"
+	"github.com/invopop/gobl/head"
 	"github.com/invopop/gobl/internal/cli"
 )
 
@@ -38,7 +39,7 @@ func init() {
 	pd.RequiredProbes = append(pd.RequiredProbes, "http-handler-exercised", "cobra-command-exercised")
 }
 
-var c14httpKinds = []string{"build", "build-doc-damaged", "build-wrong-ctype", "build-empty", "build-badjson", "build-wrongtypes", "build-template", "verify", "verify-damaged", "verify-nokey", "verify-badkey", "key", "root", "bulk-garbage", "bulk-damaged", "unknown-route", "build-huge-type", "bulk-sign-nokey", "validate-head-nulls", "lib-sign-nil", "build-yaml-keys", "sign-other-key-kinds"}
+var c14httpKinds = []string{"build", "build-doc-damaged", "build-wrong-ctype", "build-empty", "build-badjson", "build-wrongtypes", "build-template", "verify", "verify-damaged", "verify-nokey", "verify-badkey", "key", "root", "bulk-garbage", "bulk-damaged", "unknown-route", "build-huge-type", "bulk-sign-nokey", "validate-head-nulls", "lib-sign-nil", "build-yaml-keys", "sign-other-key-kinds", "verify-head-nulls"}
 var c14cobraKinds = []string{"build", "build-envelop", "build-type", "build-set", "validate", "sign", "sign-nokey", "verify", "verify-nokeyfile", "correct-credit", "correct-data", "correct-baddata", "correct-options", "replicate", "bulk", "version", "unknown-flag", "keygen-stdout"}
 
 func planC14entry(c *Ctx, run int64) *Plan {
@@ -161,6 +162,42 @@ func execC14entry(x *X) {
 				path, body = "/bulk", append(js(map[string]any{"action": "validate", "req_id": "a", "payload": map[string]any{"data": data}}), []byte("\n{\"action\":\"build\",\"payload\":{\"data\":5}}\n")...)
 			case "unknown-route":
 				path = "/nope"
+			case "verify-head-nulls":
+				// a signed envelope whose header lists hold null entries, presented for verification
+				x.faultClass = ""
+				// the signature must cover a stamp for the comparison to look at the lists
+				senv, perr := ParseEnv(d.Env)
+				if perr != nil {
+					break
+				}
+				senv.Signatures = nil
+				senv.Head.AddStamp(&head.Stamp{Provider: "sim-prv-a", Value: "v"})
+				if err := senv.Sign(PrivKey(0)); err != nil {
+					break
+				}
+				if t, err := ParseJV(Marshal(senv)); err == nil && t.Get("head") != nil {
+					st := &JV{K: 'a', A: []*JV{{K: 'z'}, {K: 'o', M: []JM{{"prv", JStr("sim-prv-a")}, {"val", JStr("v")}}}}}
+					if op.J%2 == 1 {
+						st.A = []*JV{st.A[1], st.A[0]}
+					}
+					t.Get("head").Set("stamps", st)
+					if op.J%3 == 0 {
+						t.Get("head").Set("links", &JV{K: 'a', A: []*JV{{K: 'z'}}})
+					}
+					damaged := t.Encode(nil)
+					x.guard("Envelope.Verify (null header entries)", where, func() {
+						env := new(gobl.Envelope)
+						if err := json.Unmarshal(damaged, env); err != nil {
+							return
+						}
+						_ = env.Verify(PubKey(0))
+						_ = env.Verify()
+						for _, sg := range env.Signatures {
+							_ = env.VerifySignature(sg, PubKey(0))
+						}
+					})
+					path, body = "/verify", js(map[string]any{"data": damaged, "publickey": json.RawMessage(PubKeyJSON(0))})
+				}
 			case "sign-other-key-kinds":
 				// valid private keys of kinds GOBL does not sign with, through the library and through bulk
 				x.faultClass = ""
